@@ -344,6 +344,7 @@ Section Multi.
     i_cur : forall n off g, fe chain n = Some (XNormal off g) -> (In n nums -> ~ In n (flat_map mp_nums rem)) ->
             exists tp pre post, In tp (tops ++ xt) /\ fst (fst tp) = (n, g) /\ P = pre ++ top_text tp ++ post /\ off = blen pre;
     i_all : forall tp, In tp tops -> ~ In (top_num tp) (flat_map mp_nums rem) -> fe chain (top_num tp) <> None;
+    i_allx : forall n, In n xids -> ~ In n (part_xids rem) -> fe chain n <> None;
     i_known : forall n, match lookup_entry known n with Some e => entry_meaning e | None => None end = fe chain n;
     i_kn : forall n e, lookup_entry known n = Some e -> exists off g, e = SInUse off g /\ off <= blen P /\ g <= u16_max;
     i_chain : forall ext, chain_ok dec can (P ++ ext) (blen P) chain;
@@ -652,6 +653,12 @@ Section Multi.
     Lemma Hxtp_okT tp : In tp xtp -> top_ok tp.
     Proof. rewrite xtp_eqT. intros []. Qed.
 
+    Lemma pt_sizeT : dict_get p_t Xref.K_Size = Some (OInt (Z.of_N sz)).
+    Proof.
+      change Xref.K_Size with RefWriter.K_Size. unfold p_t. apply dict_get_denote. unfold p_trd. rewrite dget_app.
+      destruct Htrail as [Hs _]. rewrite Hs. reflexivity.
+    Qed.
+
     Lemma pt_srcT : trailer_src p_t.
     Proof.
       split; [exact pt_wfT|]. exists p_trd, (t_trailer t). split; [apply (Htr sz prev sz_leT HprevT)|].
@@ -743,6 +750,12 @@ Section Multi.
         + destruct (HhereT _ Eh) as [off [g ->]]. discriminate.
         + apply (i_all _ _ _ _ _ _ Hinv tp Htp). cbn [flat_map]. intro K. apply in_app_or in K as [K|K]; [|apply Hnr; exact K].
           pose proof (Hmine tp Htp K). congruence.
+      - (* i_allx *) intros n Hn Hnr. rewrite fe_stepT. destruct (p_here p pos n) eqn:Eh.
+        + destruct (HhereT _ Eh) as [off [g ->]]. discriminate.
+        + apply (i_allx _ _ _ _ _ _ Hinv n Hn). change (part_xids (p :: rest)) with (p_xid p ++ part_xids rest). intro K.
+          apply in_app_or in K as [K|K]; [|apply Hnr; exact K].
+          assert (In n (map top_num (p_mine p ++ xtp))) by (rewrite map_app, xtp_numsT; apply in_or_app; right; exact K).
+          apply here_iffT in H. congruence.
       - (* i_known *) intro n. rewrite known_stepT, fe_stepT. destruct (p_here p pos n) eqn:Eh; [|apply (i_known _ _ _ _ _ _ Hinv)].
         reflexivity.
       - (* i_kn *) intros n e H. rewrite known_stepT in H. destruct (p_here p pos n) eqn:Eh.
@@ -771,9 +784,9 @@ Section Multi.
       Inv rest (P ++ T) chain' (p_known p pos known maxnum) (sz - 1) (xtp ++ xt) /\ C07Bytes.xincr 0 (x_entries p_x) /\
       (exists front, P ++ T = front ++ startxref_text (with_part st p last) xpos /\ xpos <= blen front) /\
       dict_get (dict_swap_remove p_t K_Prev) K_XRefStm = None /\ dict_has (dict_swap_remove p_t K_Prev) K_Encrypt = false /\
-      trailer_src p_t.
+      trailer_src p_t /\ dict_get p_t Xref.K_Size = Some (OInt (Z.of_N sz)).
     Proof.
-      split; [exact inv_stepT|]. split; [exact px_sortedT|]. split; [exact PT_frontT|]. split; [|split; [|exact pt_srcT]].
+      split; [exact inv_stepT|]. split; [exact px_sortedT|]. split; [exact PT_frontT|]. split; [|split; [|split; [exact pt_srcT|exact pt_sizeT]]].
       - rewrite dict_get_swap_remove_other; [exact Hpt_stmT|exact pt_wfT|intro E; discriminate E].
       - unfold dict_has. rewrite dict_get_swap_remove_other; [rewrite pt_encT; reflexivity|exact pt_wfT|intro E; discriminate E].
     Qed.
@@ -1034,11 +1047,14 @@ Section Multi.
       rewrite xtp_eqS. intros [<-|[]]. destruct (xq_all' a x en secs sz (p_prev prev) dec can xq_h) as [F1 _]. exact F1.
     Qed.
 
+    Lemma pt_sizeS : dict_get (xq_t a x en secs sz (p_prev prev)) Xref.K_Size = Some (OInt (Z.of_N sz)).
+    Proof. destruct (xq_all' a x en secs sz (p_prev prev) dec can xq_h) as [_ [_ [_ [_ [_ [_ [_ [_ F9]]]]]]]]. exact F9. Qed.
+
     Lemma pt_srcS : trailer_src (xq_t a x en secs sz (p_prev prev)).
     Proof.
       split; [exact pt_wfS|]. exists (xq_d a x en secs sz (p_prev prev)), (i_obj (xs_istyle x)).
       pose proof xq_h as Hh. destruct Hh as [_ [_ [_ [_ [_ [_ [[Hw _] _]]]]]]]. split; [exact Hw|].
-      destruct (xq_all' a x en secs sz (p_prev prev) dec can xq_h) as [_ [_ [_ [_ [_ [_ [F7 F8]]]]]]].
+      destruct (xq_all' a x en secs sz (p_prev prev) dec can xq_h) as [_ [_ [_ [_ [_ [_ [F7 [F8 _]]]]]]]].
       intros k Hk. split.
       - apply F7. unfold xq_tkey.
         rewrite (excl_beq' k Xref.K_Index Hk), (excl_beq' k Xref.K_W Hk), (excl_beq' k Obj.K_Length Hk), (excl_beq' k K_Filter Hk),
@@ -1131,6 +1147,12 @@ Section Multi.
         + destruct (HhereS _ Eh) as [off [g ->]]. discriminate.
         + apply (i_all _ _ _ _ _ _ Hinv tp Htp). cbn [flat_map]. intro K. apply in_app_or in K as [K|K]; [|apply Hnr; exact K].
           pose proof (Hmine tp Htp K). congruence.
+      - (* i_allx *) intros n Hn Hnr. rewrite fe_stepS. destruct (p_here p pos n) eqn:Eh.
+        + destruct (HhereS _ Eh) as [off [g ->]]. discriminate.
+        + apply (i_allx _ _ _ _ _ _ Hinv n Hn). change (part_xids (p :: rest)) with (p_xid p ++ part_xids rest). intro K.
+          apply in_app_or in K as [K|K]; [|apply Hnr; exact K].
+          assert (In n (map top_num (p_mine p ++ xtp))) by (rewrite map_app, xtp_numsS; apply in_or_app; right; exact K).
+          apply here_iffS in H. congruence.
       - (* i_known *) intro n. rewrite known_stepS, fe_stepS. destruct (p_here p pos n) eqn:Eh; [|apply (i_known _ _ _ _ _ _ Hinv)].
         reflexivity.
       - (* i_kn *) intros n e H. rewrite known_stepS in H. destruct (p_here p pos n) eqn:Eh.
@@ -1159,9 +1181,9 @@ Section Multi.
       Inv rest (P ++ T) chain' (p_known p pos known maxnum) (sz - 1) (xtp ++ xt) /\ C07Bytes.xincr 0 (x_entries (xq_x0 en secs sz)) /\
       (exists front, P ++ T = front ++ startxref_text (with_part st p last) xpos /\ xpos <= blen front) /\
       dict_get (dict_swap_remove (xq_t a x en secs sz (p_prev prev)) K_Prev) K_XRefStm = None /\ dict_has (dict_swap_remove (xq_t a x en secs sz (p_prev prev)) K_Prev) K_Encrypt = false /\
-      trailer_src (xq_t a x en secs sz (p_prev prev)).
+      trailer_src (xq_t a x en secs sz (p_prev prev)) /\ dict_get (xq_t a x en secs sz (p_prev prev)) Xref.K_Size = Some (OInt (Z.of_N sz)).
     Proof.
-      split; [exact inv_stepS|]. split; [exact px_sortedS|]. split; [exact PT_frontS|]. split; [|split; [|exact pt_srcS]].
+      split; [exact inv_stepS|]. split; [exact px_sortedS|]. split; [exact PT_frontS|]. split; [|split; [|split; [exact pt_srcS|exact pt_sizeS]]].
       - rewrite dict_get_swap_remove_other; [exact Hpt_stmS|exact pt_wfS|intro E; discriminate E].
       - unfold dict_has. rewrite dict_get_swap_remove_other; [rewrite pt_encS; reflexivity|exact pt_wfS|intro E; discriminate E].
     Qed.
@@ -1187,7 +1209,7 @@ Section Multi.
          P ++ r = front ++ startxref_text (with_part st lastp true) xs /\ xs <= blen front /\
          match parts with p :: _ => p_xpos p (blen P) <= xs | [] => True end /\
          dict_get (dict_swap_remove t0 K_Prev) K_XRefStm = None /\ dict_has (dict_swap_remove t0 K_Prev) K_Encrypt = false /\
-         trailer_src t0).
+         trailer_src t0 /\ dict_get t0 Xref.K_Size = Some (OInt (Z.of_N (maxF + 1)))).
   Proof.
     induction parts as [|p rest IH]; intros P chain known maxnum xt r Hdom Hinv Hw HU.
     - cbn [write_parts] in Hw. inversion Hw; subst r. rewrite app_nil_r. exists chain, known, maxnum, xt. split; [exact Hinv|]. intro K. contradiction.
@@ -1216,16 +1238,17 @@ Section Multi.
                  (exists front, P ++ T = front ++ startxref_text (with_part st p (p_last rest)) (p_xpos p (blen P)) /\
                                 p_xpos p (blen P) <= blen front) /\
                  dict_get (dict_swap_remove pt K_Prev) K_XRefStm = None /\ dict_has (dict_swap_remove pt K_Prev) K_Encrypt = false /\
-                 trailer_src pt).
+                 trailer_src pt /\ dict_get pt Xref.K_Size = Some (OInt (Z.of_N (p_size p maxnum)))).
       { destruct (mp_xref p) as [t|x] eqn:Hfmt.
         - eexists _, _, _. exact (part_resultT p t P chain known maxnum rest xt Hfmt Hhn Hinv Hex Hold Hok HU1).
         - eexists _, _, _. exact (part_resultS p x P chain known maxnum rest xt Hfmt Hhn Hinv Hex Hold Hok HU1). }
-      destruct Hres as [px [pt [xtp [Hinv' [Hsort [[front [F1 F2]] [Hstm [Henc Hsrc]]]]]]]].
+      destruct Hres as [px [pt [xtp [Hinv' [Hsort [[front [F1 F2]] [Hstm [Henc [Hsrc Hsize]]]]]]]]].
       destruct rest as [|p2 rest2].
       + cbn [write_parts] in Hr. inversion Hr; subst r'. rewrite app_nil_r.
         eexists _, _, _, _. split; [exact Hinv'|]. intros _.
         exists (p_xpos p (blen P)), px, pt, chain, p, front. split; [reflexivity|]. split; [exact Hsort|]. split; [reflexivity|].
-        split; [exact F1|]. split; [exact F2|]. split; [lia|]. split; [exact Hstm|split; [exact Henc|exact Hsrc]].
+        split; [exact F1|]. split; [exact F2|]. split; [lia|]. split; [exact Hstm|split; [exact Henc|split; [exact Hsrc|]]].
+        rewrite Hsize. rewrite p_size_eq. f_equal. f_equal. f_equal. lia.
       + assert (Epos : blen P + N.of_nat (length T) = blen (P ++ T)) by (unfold blen; rewrite app_length; lia).
         rewrite Epos in Hr, Hdom'.
         destruct (IH (P ++ T) ((p_xpos p (blen P), (px, pt)) :: chain) (p_known p (blen P) known maxnum) (p_size p maxnum - 1) (xtp ++ xt) r' Hdom' Hinv' Hr) as [cF [kF [mF [xF [I1 I2]]]]].
@@ -1271,13 +1294,14 @@ Section Multi.
     ref_write_multi st parts a = Some file -> blen file <= u32_max ->
     parts_ok parts (blen (RefWriter.header st (a_version a))) None [] 0 ->
     match parts with p :: _ => 25 < p_xpos p (blen (RefWriter.header st (a_version a))) | [] => True end ->
-    window_ok parts file ->
+    window_ok parts file -> (forall n, In n xids -> In n (part_xids parts)) ->
     exists d t, load_ext dec can file = LOk d t /\ d_version d = a_version a /\
       (forall tp, In tp tops -> lookup (d_objects d) (fst (fst tp)) = Some (loaded_top tp)) /\
       (forall id o, lookup (d_objects d) id = Some o -> (exists tp, In tp tops /\ fst (fst tp) = id) \/ In (fst id) xids) /\
-      exists t0, d_trailer d = dict_swap_remove t0 K_Prev /\ trailer_src t0.
+      exists t0, d_trailer d = dict_swap_remove t0 K_Prev /\ trailer_src t0 /\
+                 dict_get t0 Xref.K_Size = Some (OInt (Z.of_N (1 + max_num (nums ++ xids)))).
   Proof.
-    intros Hu Hw Hlen Hdom H25 Hsx.
+    intros Hu Hw Hlen Hdom H25 Hsx Hxsub.
     destruct (ref_write_multi_shape parts file Hw) as [r [-> [Hr [Hne [Hj [Hv Hplaced]]]]]].
     set (hdr := RefWriter.header st (a_version a)) in *.
     assert (Hhdr : exists b r0, hdr = b :: r0) by (unfold hdr, RefWriter.header; eexists; eexists; reflexivity).
@@ -1286,6 +1310,7 @@ Section Multi.
       - intros n e H. discriminate H.
       - intros n off g H. discriminate H.
       - intros tp Htp Hn. exfalso. apply Hn. apply Hplaced. exact Htp.
+      - intros n Hn Hnr. exfalso. apply Hnr. apply Hxsub. exact Hn.
       - intro n. reflexivity.
       - intros n e H. discriminate H.
       - intro ext. exact I.
@@ -1294,7 +1319,7 @@ Section Multi.
       - destruct Hhdr as [b [r0 ->]]. unfold blen. cbn [length]. lia. }
     assert (HU : blen (hdr ++ r) <= u32_max) by (unfold blen in *; rewrite !app_length in *; lia).
     destruct (parts_inv parts hdr [] [] 0 [] r Hdom Hinv0 Hr HU) as [cF [kF [mF [xtF [IF HF]]]]].
-    destruct (HF Hne) as [xs [x0 [t0 [cr [lastp [front [E1 [E2 [E3 [E4 [E5 [E6 [E7 [E8 E9]]]]]]]]]]]]]]. subst cF. clear HF.
+    destruct (HF Hne) as [xs [x0 [t0 [cr [lastp [front [E1 [E2 [E3 [E4 [E5 [E6 [E7 [E8 [E9 E10]]]]]]]]]]]]]]]. subst cF. clear HF.
     pose proof (i_chain _ _ _ _ _ _ IF []) as Hc. rewrite app_nil_r in Hc. cbn [chain_ok] in Hc.
     destruct Hc as [Hc1 [Hc2 [Hc3 [Hc4 Hc5]]]].
     set (buf := hdr ++ r) in *.
@@ -1387,7 +1412,16 @@ Section Multi.
       set (M := fold_left (ins objfM) (x_entries xm) []).
       assert (Hlk : forall id, lookup M id = if hit (xget (x_entries xm)) (x_entries xm) id then Some (objfM (fst id) (snd id)) else None).
       { intro id. unfold M. rewrite (lookup_fold_ins objfM (xget (x_entries xm)) _ [] id); [reflexivity|exact Hxg]. }
-      split; [|split; [|exists t0; split; [reflexivity|exact E9]]].
+      split; [|split; [|exists t0; split; [reflexivity|split; [exact E9|]]]].
+      3:{ rewrite E10. f_equal. f_equal. f_equal.
+          assert (Hle : max_num (nums ++ xids) <= mF).
+          { unfold max_num. apply max_num_le; [lia|]. intros n Hn.
+            assert (Hne' : fe ((xs, (x0, t0)) :: cr) n <> None).
+            { apply in_app_or in Hn as [Hn|Hn].
+              - destruct (top_of_num n Hn) as [tp [Htp <-]]. apply (i_all _ _ _ _ _ _ IF tp Htp). intros [].
+              - apply (i_allx _ _ _ _ _ _ IF n Hn). intros []. }
+            destruct (fe ((xs, (x0, t0)) :: cr) n) as [e|] eqn:Ee; [|contradiction]. apply (i_nums _ _ _ _ _ _ IF n e Ee). }
+          pose proof (i_max _ _ _ _ _ _ IF). lia. }
       + intros tp Htp. rewrite Hlk.
         assert (Hne' : fe ((xs, (x0, t0)) :: cr) (top_num tp) <> None) by (apply (i_all _ _ _ _ _ _ IF tp Htp); intros []).
         destruct (fe ((xs, (x0, t0)) :: cr) (top_num tp)) as [e|] eqn:Ee; [|contradiction].
